@@ -229,6 +229,16 @@ def range_cases(draw):
                                    "subpix": draw(st.sampled_from([1, 2]))}],
                 ["disparity", {"disparity_method": "wta", "invalid_disparity": -9999}]]
         use_grid = True
+    if not use_grid and draw(st.integers(0, 7)) == 0:
+        # nearly everything masked in the left image: a few isolated usable pixels, no valid pixel in sight of one another;
+        # whatever the filling does with them, a pixel that ends up valid holds a disparity of the interval
+        H_, W_ = pair["H"], pair["W"]
+        keep = draw(st.lists(st.tuples(st.integers(0, H_ - 1), st.integers(0, W_ - 1)), min_size=1, max_size=4, unique=True))
+        pair["mask_left"] = [["rect", 0, 0, H_ - 1, W_ - 1, 2]] + [[r_, c_, 0] for r_, c_ in keep]
+        pipe = [["matching_cost", {"matching_cost_method": "sad", "window_size": 1, "subpix": 2}],
+                ["disparity", {"disparity_method": "wta", "invalid_disparity": draw(st.sampled_from([-9999, "NaN"]))}],
+                ["validation", {"validation_method": "cross_checking_accurate", "cross_checking_threshold": 0,
+                                "interpolated_disparity": draw(st.sampled_from(["mc-cnn", "sgm"]))}]]
     p = {"pair": pair, "AB": [A, B], "pipeline": pipe,
          # the machine may have served before: a coarse-to-fine run (scale factor 2 or 3) or a run over another interval
          "used": draw(st.sampled_from([None, None, None, "pyramid-2", "pyramid-3", "other-interval"]))}
@@ -358,6 +368,8 @@ def range_body(ctx: Ctx, p: dict) -> None:
         classes.append("right-image-own-interval")
     if p.get("used"):
         classes.append("machine-served-before:" + p["used"])
+    if p["pair"].get("mask_left") and p["pair"]["mask_left"][0][0] == "rect" and p["pair"]["mask_left"][0][1:5] == [0, 0, p["pair"]["H"] - 1, p["pair"]["W"] - 1]:
+        classes.append("isolated-usable-pixels")
     ctx.case(p, nontrivial=bool(state["changed"]), classes=classes)
 
 
